@@ -30,6 +30,9 @@ def pyval(v):
             return object()
         elif k == '$set':
             return set(pyval(i) for i in x)
+        elif k == '$intkeys':
+            # a dict whose keys are ints (JSON cannot say that)
+            return {int(kk): pyval(vv) for kk, vv in x.items()}
 
     if isinstance(v, dict):
         return {k: pyval(x) for k, x in v.items()}
@@ -76,6 +79,35 @@ def writer_call(w, op):
     """Perform one op dict on a DiffXWriter."""
     name = op['op']
     kw = {}
+
+    if op.get('positional'):
+        # the documented parameter order is part of the API
+        order = {
+            'new_change': ['encoding'], 'new_file': ['encoding'],
+            'write_preamble': ['text', 'encoding', 'indent', 'line_endings',
+                               'mimetype'],
+            'write_meta': ['metadata', 'encoding', 'meta_format'],
+            'write_diff': ['content', 'diff_type', 'encoding',
+                           'line_endings'],
+        }[name]
+        defaults = {'indent': 4, 'meta_format': 'json'}
+        vals = []
+
+        for k in order:
+            if k == 'content' and 'content' not in op:
+                vals.append(bytes.fromhex(op.get('content_hex', '')))
+            elif k == 'metadata':
+                vals.append(copy.deepcopy(pyval(op.get('metadata'))))
+            elif k in op:
+                vals.append(pyval(op[k]))
+            else:
+                vals.append(defaults.get(k))
+
+        # trailing arguments that were not given are left out
+        last = max([i for i, k in enumerate(order)
+                    if k in op or (k == 'content' and 'content_hex' in op)]
+                   or [0])
+        return getattr(w, name)(*vals[:last + 1])
 
     if name in ('new_change', 'new_file'):
         if 'encoding' in op:
@@ -294,18 +326,55 @@ def sized_reader_cls(L, bs):
     return cls
 
 
+PREFIXES = [b'', b'From: someone\r\nSubject: a patch\r\n\r\n',
+            b'\x00' * 7, b'HTTP/1.1 200 OK\n\n', b'x' * 95, b'y' * 96 + b'\n',
+            b'#diffx: version=9.9\n', b'z' * 5000]
+
+
 def open_stream(world, kind, data, actor, buf=None, cap=None,
-                read_error_at=None):
+                read_error_at=None, prefix=0):
+    """prefix: index into PREFIXES - bytes that precede the DiffX data in
+    the stream and have already been consumed by the caller, so the stream
+    is handed over positioned at the start of the DiffX data (an envelope, a
+    response header): the reader reads from the current position."""
+    pre = PREFIXES[prefix % len(PREFIXES)] if isinstance(prefix, int) else b''
+    data = pre + data
+
     if kind == 'bytesio':
-        return io.BytesIO(data), None
+        st = io.BytesIO(data)
+        st.seek(len(pre))
+        return st, None
     elif kind == 'buffered':
         raw = SimRawIO(world, data, actor, cap=cap)
-        return io.BufferedReader(raw, buffer_size=max(1, int(buf or 8192))), \
-            raw._h
+        st = io.BufferedReader(raw, buffer_size=max(1, int(buf or 8192)))
+
+        if pre:
+            st.read(len(pre))
+
+        return st, raw._h
     else:
         h = SimReadHandle(world, data, actor, cap=cap,
                           read_error_at=read_error_at)
+        h.pos = len(pre)
         return h, h
+
+
+def make_reader(cls, stream, late_rewind=False):
+    """late_rewind: the reader object is created while the stream is
+    positioned elsewhere (at its end, as right after filling a buffer) and
+    the stream is only then moved to where the DiffX data starts; nothing is
+    read before iteration begins, so this must not matter."""
+    if late_rewind and hasattr(stream, 'seek') and hasattr(stream, 'tell'):
+        try:
+            start = stream.tell()
+            stream.seek(0, 2)
+            rd = cls(stream)
+            stream.seek(start)
+            return rd
+        except (OSError, ValueError):
+            pass
+
+    return cls(stream)
 
 
 class ReaderActor(Actor):
@@ -344,9 +413,10 @@ class ReaderActor(Actor):
             self.data = apply_faults(world, stored, faults, fname)
             self.stream, self.handle = open_stream(
                 world, self.spec.get('stream', 'sim'), self.data, self.id,
-                buf=self.spec.get('buf'))
+                buf=self.spec.get('buf'), prefix=self.spec.get('prefix', 0))
             cls = sized_reader_cls(L, self.spec.get('block_size'))
-            self.it = iter(cls(self.stream))
+            self.it = iter(make_reader(cls, self.stream,
+                                       bool(self.spec.get('late_rewind'))))
             return
 
         try:
@@ -374,19 +444,19 @@ class ReaderActor(Actor):
 
 
 def read_all(world, data, block_size=None, stream='sim', buf=None,
-             actor='aux'):
+             actor='aux', prefix=0, late_rewind=False):
     """Synchronous whole-file read used by oracles that need the records of
     a variant (intact file, other configuration).  Same seams, same event
     log."""
     L = world.L
-    st, h = open_stream(world, stream, data, actor, buf=buf)
+    st, h = open_stream(world, stream, data, actor, buf=buf, prefix=prefix)
     cls = sized_reader_cls(L, block_size)
     recs = []
     end = 'eof'
     exc = None
 
     try:
-        for rec in cls(st):
+        for rec in make_reader(cls, st, late_rewind):
             recs.append(rec)
     except SimEventCap:
         end = 'cap'
